@@ -573,6 +573,9 @@ class SStr:
     def __bool__(s):
         return CTX.decide(z3.Length(s.e) > 0)
 
+    def strip(s, chars=None):
+        raise ShimUnsupported('strip() on a z3 string (Unicode whitespace is not modelled)')
+
     def __repr__(s):
         return f'SStr({s.e})'
 
